@@ -23,11 +23,19 @@ inductive CrashAt
   | relWrite    -- inside Release: after the store write
 deriving Repr, DecidableEq
 
+/-- Which store call of a `Next` fails with an I/O error (the call returns the error to its caller). -/
+inductive FailAt
+  | get   -- the store read of `update`
+  | set   -- the store write of `update`
+deriving Repr, DecidableEq
+
 inductive Op
   | new (interval : Nat)   -- NewSequence over the same store and key (abandons a live object)
   | next
   | release
   | crash (pt : CrashAt)
+  | failNext (f : FailAt)  -- Next whose store read / write returns an error
+  | failRelease            -- Release whose store write returns an error
 deriving Repr, DecidableEq
 
 inductive Out
@@ -35,6 +43,7 @@ inductive Out
   | num (n : Nat)
   | crashed
   | noobj
+  | err
 deriving Repr, DecidableEq
 
 structure St where
@@ -98,6 +107,24 @@ def step (s : St) : Op → St × Out
         if hasLease o then (abandon { s with store := some o.next }, .crashed)
         else (abandon s, .ok)   -- Release makes no store call and returns
 
+  | .failNext f =>
+    match s.obj with
+    | none => (s, .noobj)
+    | some o =>
+      if hasLease o then
+        -- served from memory: no store call is made, nothing can fail
+        ({ s with obj := some { o with next := o.next + 1 }, returned := o.next :: s.returned }, .num o.next)
+      else
+        match f with
+        | .get => (s, .err)                                   -- `update` returns before touching the object
+        | .set => ({ s with obj := some { o with next := mark s } }, .err)   -- `seq.next = num` happened, reserved did not
+  | .failRelease =>
+    match s.obj with
+    | none => (s, .noobj)
+    | some o =>
+      if hasLease o then (s, .err)      -- the write failed: `reserved` is not touched
+      else (s, .ok)                     -- nothing leased: no store call, returns nil
+
 def run (s : St) : List Op → St × List Out
   | [] => (s, [])
   | op :: ops =>
@@ -123,6 +150,9 @@ def parseOp : List String → Option Op
   | ["crash", "read"] => some (.crash .nextRead)
   | ["crash", "write"] => some (.crash .nextWrite)
   | ["crash", "relwrite"] => some (.crash .relWrite)
+  | ["fnext", "get"] => some (.failNext .get)
+  | ["fnext", "set"] => some (.failNext .set)
+  | ["frelease"] => some .failRelease
   | _ => none
 
 def showOut : Out → String
@@ -130,6 +160,7 @@ def showOut : Out → String
   | .num n => s!"num {n}"
   | .crashed => "crashed"
   | .noobj => "noobj"
+  | .err => "err"
 
 /-- `n` consecutive `next` steps (the sequential meaning of `n` concurrent, mutex-serialised calls). -/
 def nexts : Nat → St → List Nat → St × List Nat
@@ -142,6 +173,7 @@ def nexts : Nat → St → List Nat → St × List Nat
 def stepLine (s : St) (toks : List String) : St × String :=
   match toks with
   | ["mark"] => (s, showOptNat s.store)
+  | "parrel" :: _ => (s, "ok")   -- concurrent Next vs Release: last request of a case, judged by the Go oracle only
   | ["par", g, k] =>
     match g.toNat?, k.toNat?, s.obj with
     | some g, some k, some _ =>
